@@ -2,7 +2,7 @@
 """Regenerate regress/<id>/F*.json: for every fix reversal (mutants/unfix-F*.diff) run the named check's quick tier in a
 scratch copy, keep the smallest replay file it produced, and confirm that it passes on the unchanged tree."""
 import subprocess, os, glob, shutil, json, sys
-PAIRS = {"F1": "C12", "F3": "C12", "F4": "C12", "F5": "C20", "F6": "C07", "F11": "C09", "F12": "C14", "F13": "C09", "F14": "C15", "F15": "C08", "F16": "C12", "F17": "C12"}
+PAIRS = {"F1": "C12", "F3": "C12", "F4": "C12", "F5": "C20", "F6": "C07", "F11": "C09", "F12": "C14", "F13": "C09", "F14": "C15", "F15": "C08", "F16": "C12", "F17": "C12", "F18": "C06"}
 scratch = '/root/scratch/mutreg'
 only = sys.argv[1:]
 for f, chk in PAIRS.items():
